@@ -39,7 +39,30 @@ def gunzipOf (tbl : List (Bytes × Bytes)) (c : Bytes) : Option Bytes :=
 def fuelFor (bs : Bytes) (tbl : List (Bytes × Bytes)) : Nat :=
   64 * (bs.length + (tbl.foldl (fun a e => a + e.2.length) 0)) + 4096
 
+/-- one member of a concurrent batch: `u/<bytes>/<hints>` (unknown object) or `n/<id>/<bytes>` (named
+type); no gzip_packed inside (the generator leaves such inputs out of the batches) -/
+def parMember (s : String) : Option String :=
+  match s.splitOn "/" with
+  | ["u", b, hints] =>
+    match parseBytes? b, parseHints? hints with
+    | some bs, some hs => some (showOutcome (decodeUnknown Mtv.Gen.registry (gunzipOf []) (fuelFor bs []) hs bs))
+    | _, _ => none
+  | ["n", id, b] =>
+    match hexNat? id.toList, parseBytes? b with
+    | some id, some bs => some (showOutcome (decodeNamed Mtv.Gen.registry (gunzipOf []) (fuelFor bs []) id bs))
+    | _, _ => none
+  | _ => none
+
 def handle : List String → String
+  -- `c15.par <mode> <n> <seed> <member>…`: n goroutines decode every member at the same time, each in its own
+  -- order (in a new process or in the harness process). Decoding is a function of the bytes: whatever the
+  -- interleaving, every member has the result of the sequential model; the line is those results in order.
+  | "c15.par" :: mode :: n :: seed :: m :: ms =>
+    if (mode == "fresh" || mode == "here") && n.toNat?.isSome && seed.toNat?.isSome then
+      match (m :: ms).mapM parMember with
+      | some outs => " ;; ".intercalate outs
+      | none => "bad-op"
+    else "bad-op"
   | ["c15.unk", b, hints, gz] =>
     match parseBytes? b, parseHints? hints, parseGz? gz with
     | some bs, some hs, some tbl =>
